@@ -118,8 +118,7 @@ ASSUMPTIONS = [
     "against 0.0) are two keys of the byte-hashed database and are evaluated twice: the property does not say whether "
     "they are 'distinct'; such designs get no verdict (class doe_signed_zero_twin_samples_no_verdict)",
     "parallel DOE (n_processes=2, 1 case in 6): the functions run in forked workers, so only the database (keys, order, "
-    "values) and the counter of the main process are checked, rules are half-spaces, and with kept counters only the "
-    "budget of the run itself (number of samples) is required: the workers test copies of the counter",
+    "values) and the counter of the main process are checked and the rules are half-spaces",
     "DOE with normalize_design_space=True: database keys are compared with the samples to 4 ulp of the bound scale "
     "(the sample goes through normalise/unnormalise)",
     "recorded values are compared with the polynomial re-evaluated on a copy of the key to 16 ulp of the sum of the "
@@ -137,6 +136,9 @@ K_DOE_NORM = "doe_normalized_design_space"
 K_SCALING = "scaling_threshold_applied"
 K_KKT_LISTENER = "kkt_listener_left_behind"
 K_STALE_CALLBACK = "listeners_left_after_exception"
+K_CLEARED_KEPT = "cleared_database_with_kept_counters"
+K_PARALLEL_TIME = "parallel_doe_time_limit_leaves_placeholders"
+K_PARALLEL_KEPT = "parallel_doe_ignores_kept_counter"
 
 EXCLUDED_ALGORITHMS = {
     "MNBI": "multi-objective only: its result is a MultiObjectiveOptimizationResult built from the Pareto front of the "
@@ -308,14 +310,33 @@ def _check_result(h, result, p, settings, ctx, where, coefficient_solver):
                   f"is not the best feasible recorded point ({min(candidates)})")
 
 
-def _budget_oracles(h, p, ctx, where, algo, cap, n_iter, marks, old_keys, allowed_growth, extra):
+def _check_finite_inputs(h, ctx, where, algo):
+    n_bad = h.state.get("nonfinite_input_calls", 0)
+    ctx.check(n_bad == 0, "nan_input", f"{where}: {algo} called the user's functions {n_bad} times with a NaN / inf design vector")
+
+
+def _apply_tamper(h, tamper):
+    """What a user may do to the database between two executions."""
+    database = h.problem.database
+    if tamper["op"] == "filter":
+        names = {"none": [], "objective": [h.obj_name], "constraints": list(h.con_names)}[tamper["keep"]]
+        database.filter(names)
+    elif tamper["op"] == "store_empty":
+        for key in list(database):
+            database.store(key, {})
+    elif tamper["op"] == "clear":
+        database.clear()
+
+
+def _budget_oracles(h, p, ctx, where, algo, cap, n_iter, marks, old_keys, allowed_growth, extra, counter_start=None, filled_before=0):
     """Database growth and distinct-point counters of one execution.
 
     Points that were database keys before the execution belong to an earlier budget: asking a further
     function (e.g. the gradient) there is not a new point of this execution.
     """
     problem = h.problem
-    growth = len(problem.database) - len(old_keys)
+    # entries that hold outputs now and did not before (an entry emptied by Database.filter is a point to evaluate again)
+    growth = h.n_filled() - filled_before
     db_keys = h.db_keys()
     pts = {k: v for k, v in _counted_points(h, marks, db_keys).items() if k not in old_keys}
     n_pts = len(pts)
@@ -333,6 +354,11 @@ def _budget_oracles(h, p, ctx, where, algo, cap, n_iter, marks, old_keys, allowe
         allowed_pts = None  # the sub-optimisations have their own documented budget (sub_optim_max_iter each)
     else:
         allowed_pts = allowed_growth
+    counter = problem.evaluation_counter
+    start = 0 if counter_start is None else counter_start  # a kept counter may already exceed a smaller maximum
+    if not (is_al1 and ctx.known(K_AL1_RESET, count=False)):
+        ctx.check(counter.maximum == 0 or counter.current <= max(counter.maximum, start), "counter",
+                  f"{where}: the evaluation counter holds {counter.current}, beyond its maximum {counter.maximum} (it held {start} at the start)", **info)
     if allowed_pts is not None:
         if cap["linear_only"] and n_pts > allowed_pts and n_pts <= allowed_pts + 1 and ctx.known(K_LP_EXTRA_POINT):
             return growth, n_pts
@@ -364,6 +390,9 @@ def case_opt(p, ctx, lib=None):
     h = HarnessProblem(p["problem"], cap=CAP_CALLS)
     settings = dict(p["settings"])
     h.normalized = bool(settings["normalize_design_space"])
+    if not settings["use_database"]:
+        for counted in h.counted:  # the NaN check of the design vector lives in the database path (class of C03-F1)
+            counted.raise_on_nonfinite = False
     use_db = settings["use_database"]
     n_iter = int(p["max_iter"])
     coefficient_solver = cap["library"] in ("ScipyLinprog", "ScipyMILP")
@@ -405,6 +434,8 @@ def _case_opt(p, ctx, cp, algo, cap, h, settings, use_db, n_iter, coefficient_so
             ctx.cls("database_off_runaway_cut_by_harness")
         if ctx.known(K_DB_OFF):
             return  # held to 'returns without raising' only (P15)
+    if use_db:
+        _check_finite_inputs(h, ctx, "first execution", algo)
     growth, n_pts = _budget_oracles(h, p, ctx, "first execution", algo, cap, n_iter, marks, set(), n_iter, p["extra"])
     if runaway and use_db:
         # more than CAP_CALLS calls within the budget of distinct points: the algorithm stalls on recorded points (e.g. SLSQP
@@ -467,7 +498,18 @@ def _case_opt(p, ctx, cp, algo, cap, h, settings, use_db, n_iter, coefficient_so
         settings2 = {k: settings[k] for k in ("normalize_design_space", "use_database", "round_ints", "store_jacobian", "eq_tolerance", "ineq_tolerance")}
         settings2["reset_iteration_counters"] = reset
         extra2 = {"seed": int(p["seed"])} if algo2 in ("DUAL_ANNEALING", "DIFFERENTIAL_EVOLUTION") else {}
-        old_keys = {point_key(k) for k in h.db_keys()}
+        tamper = second.get("tamper")
+        if tamper is not None:
+            ctx.cls(f"tamper:{tamper['op']}" + (f":keep_{tamper['keep']}" if tamper["op"] == "filter" else ""))
+            if tamper["op"] in ("clear", "filter") and not reset and ctx.known(K_CLEARED_KEPT):
+                ctx.cls("excluded_by_known_finding")
+                return
+            _apply_tamper(h, tamper)
+        if second.get("same_start"):
+            x0 = h.x0.astype(int) if h.space.common_dtype_kind() == "i" else h.x0
+            h.design_space.set_current_value(x0)
+        old_keys = h.filled_keys()
+        filled_before = h.n_filled()
         counter_before = int(h.problem.evaluation_counter.current)
         marks2 = h.mark()
         h.state["nan_returned"] = 0
@@ -478,7 +520,12 @@ def _case_opt(p, ctx, cp, algo, cap, h, settings, use_db, n_iter, coefficient_so
                       f"the evaluation counter holds {counter_before} after a first execution that created {growth} entries")
             if allowed == 0:
                 ctx.cls("second_budget_already_spent")
-        growth2, _ = _budget_oracles(h, p, ctx, "second execution", algo2, cap2, n2, marks2, old_keys, allowed, extra2)
+        _check_finite_inputs(h, ctx, "second execution", algo2)
+        growth2, _ = _budget_oracles(h, p, ctx, "second execution", algo2, cap2, n2, marks2, old_keys, allowed, extra2,
+                                     counter_start=None if reset else counter_before, filled_before=filled_before)
+        if tamper is not None and growth2 == allowed and allowed < growth:
+            ctx.cls("restart_cut_by_budget_on_emptied_points")
+            ctx.nontriv(("restart", p))
         counter2 = int(h.problem.evaluation_counter.current)
         expected2 = growth2 if reset else counter_before + growth2
         ctx.check(counter2 == expected2, "counter",
@@ -608,6 +655,8 @@ def _run_doe(h, p, ctx, where, seed_shift=0, lib=None, **more):
         # the forked workers print the traceback of a refused sample on sys.stderr (inherited through the fork)
         with warnings.catch_warnings(), (contextlib.redirect_stderr(io.StringIO()) if parallel else contextlib.nullcontext()):
             warnings.simplefilter("ignore")
+            if p.get("max_time"):
+                more = dict(more, max_time=float(p["max_time"]))
             result = lib.execute(h.problem, eval_jac=bool(p["eval_jac"]), normalize_design_space=bool(p["normalize_design_space"]),
                                  n_processes=int(p.get("n_processes", 1)), **settings, **more)
     except Exception as exc:  # noqa: BLE001
@@ -773,10 +822,30 @@ def case_doe(p, ctx, lib=None):
     if p["problem"].get("obs"):
         ctx.cls("doe_with_observable")
     marks = h.mark()
+    parallel = int(p.get("n_processes", 1)) > 1
+    if p.get("max_time") and parallel and ctx.known(K_PARALLEL_TIME):
+        ctx.cls("excluded_by_known_finding")
+        return "excluded"
     result, samples = _run_doe(h, p, ctx, "first execution", lib=lib)
     if _signed_zero_twins(samples):
         ctx.cls("doe_signed_zero_twin_samples_no_verdict")
         return "no_verdict"
+    if p.get("max_time"):
+        # the time limit fires at the first recorded sample: at most one evaluated entry, every key a generated sample,
+        # and no output-less placeholder left behind
+        ctx.cls("doe_time_limit")
+        tol = 4 * np.finfo(float).eps * np.maximum(np.maximum(np.abs(h.space.lb), np.abs(h.space.ub)), h.space.ub - h.space.lb)
+        empty = [np.asarray(k.wrapped_array).real.tolist() for k, v in h.problem.database.items() if not v]
+        ctx.check(not empty, "doe_keys", f"max_time=1e-9: {len(empty)} database entries without any output are left behind", entries=empty[:6])
+        for k in h.db_keys():
+            ctx.check(any(_match(k.real.astype(float), srow, tol) for srow in samples), "doe_keys",
+                      f"max_time=1e-9: database key {k.real.tolist()} is not a generated sample")
+        n_filled = h.n_filled()
+        ctx.check(n_filled <= 1, "termination", f"max_time=1e-9: {n_filled} samples were recorded before the time limit fired")
+        ctx.check("Maximum time reached" in str(result.message) or n_filled == 0, "termination",
+                  f"max_time=1e-9 but the message is {result.message!r}")
+        ctx.nontriv(p)
+        return "done"
     stats = _doe_oracles(h, p, ctx, "first execution", samples, set(), marks, None)
     counter = int(h.problem.evaluation_counter.current)
     ctx.check(counter == stats["n_new"], "counter", f"the evaluation counter holds {counter} after a DOE that created {stats['n_new']} entries")
@@ -815,8 +884,8 @@ def case_doe(p, ctx, lib=None):
             ctx.cls("doe_signed_zero_twin_samples_no_verdict")
             return "no_verdict"
         left = None if reset else max(0, len(samples2) - counter)
-        if left is not None and int(p.get("n_processes", 1)) > 1:
-            left = len(samples2)  # the forked workers test copies of the counter: only the budget of this run applies
+        if left is not None and int(p.get("n_processes", 1)) > 1 and ctx.known(K_PARALLEL_KEPT):
+            left = len(samples2)  # known finding: the forked workers test copies of the counter, a kept counter is ignored
         stats2 = _doe_oracles(h, p, ctx, "second execution", samples2, old_keys, marks2, left)
         if stats2["n_fresh"]:
             ctx.cls("doe_second_with_new_samples")
@@ -848,7 +917,7 @@ def run(ctx):
     shrink = 15.0 if ctx.tier == "quick" else 120.0
     for name in single:
         if not failed("opt"):
-            ctx.drive("opt", opt_cases(cp["opt"], [name], non_global), _timed(case_opt), quick=(40 if cp["opt"][name]["library"] == "Nlopt" else 24) if cp["opt"][name]["grad"] else 16,
+            ctx.drive("opt", opt_cases(cp["opt"], [name], non_global), _timed(case_opt), quick=(40 if cp["opt"][name]["library"] == "Nlopt" else 32) if cp["opt"][name]["grad"] else 16,
                       thorough=90, shrink_s=shrink)
     for name in composite:
         if not failed("composite"):
